@@ -6,6 +6,7 @@ normalizer function `norm` is a parameter: every theorem holds for any normalize
 import WnVerif.Model.Api
 import WnVerif.Model.Add
 import WnVerif.Lemmas.DbAux
+import WnVerif.Props.C01
 namespace WnVerif.Props.C09
 open WnVerif.Db
 
@@ -143,5 +144,180 @@ theorem C09_norm_column (db : Db) (norm : String → String) (lexid entry : Nat)
   · simp at h
     subst h
     exact ⟨_, rfl, rfl, rfl, rfl, rfl⟩
+
+/-! ### a form query is a filter of the unrestricted listing (order preserved) -/
+
+theorem insertBy_of_lt_all {α} (key : α → Nat) (a : α) (L : List α) (h : ∀ y ∈ L, key a < key y) :
+    insertBy key a L = a :: L := by
+  cases L with
+  | nil => rfl
+  | cons b t =>
+    have := h b List.mem_cons_self
+    simp only [insertBy]
+    rw [if_neg (by omega)]
+
+theorem filter_insertBy {α} (key : α → Nat) (p : α → Bool) (a : α) : ∀ (l : List α),
+    l.Pairwise (fun x y => key x ≤ key y) →
+    (insertBy key a l).filter p = if p a then insertBy key a (l.filter p) else l.filter p := by
+  intro l
+  induction l with
+  | nil => intro _; cases hp : p a <;> simp [insertBy, hp]
+  | cons b t ih =>
+    intro hs
+    obtain ⟨hb, ht⟩ := List.pairwise_cons.mp hs
+    simp only [insertBy]
+    by_cases hk : key b ≤ key a
+    · rw [if_pos hk, List.filter_cons, ih ht]
+      cases hpb : p b <;> cases hpa : p a <;> simp [List.filter_cons, hpb, insertBy, hk]
+    · rw [if_neg hk]
+      have hall : ∀ y ∈ (b :: t).filter p, key a < key y := by
+        intro y hy
+        have hy' := (List.mem_filter.mp hy).1
+        rcases List.mem_cons.mp hy' with rfl | hy'
+        · omega
+        · have := hb y hy'; omega
+      cases hpa : p a
+      · simp [List.filter_cons, hpa]
+      · simp only [if_true]
+        rw [insertBy_of_lt_all key a _ hall, List.filter_cons, hpa]
+        rfl
+
+theorem insertBy_sorted' {α} (key : α → Nat) (a : α) : ∀ (l : List α), l.Pairwise (fun x y => key x ≤ key y) →
+    (insertBy key a l).Pairwise (fun x y => key x ≤ key y) := by
+  intro l
+  induction l with
+  | nil => intro _; simp [insertBy]
+  | cons b t ih =>
+    intro h
+    obtain ⟨hb, ht⟩ := List.pairwise_cons.mp h
+    simp only [insertBy]
+    split
+    · rename_i hk
+      refine List.pairwise_cons.mpr ⟨?_, ih ht⟩
+      intro y hy
+      have : y ∈ a :: t := by
+        clear ih hb ht h hk
+        induction t with
+        | nil => simpa [insertBy] using hy
+        | cons c u ihu =>
+          simp only [insertBy] at hy
+          split at hy
+          · rcases List.mem_cons.mp hy with rfl | hy
+            · exact List.mem_cons_of_mem _ List.mem_cons_self
+            · rcases List.mem_cons.mp (ihu hy) with rfl | h'
+              · exact List.mem_cons_self
+              · exact List.mem_cons_of_mem _ (List.mem_cons_of_mem _ h')
+          · exact hy
+      rcases List.mem_cons.mp this with rfl | hy'
+      · exact hk
+      · exact hb y hy'
+    · rename_i hk
+      refine List.pairwise_cons.mpr ⟨?_, h⟩
+      intro y hy
+      rcases List.mem_cons.mp hy with rfl | hy'
+      · omega
+      · have := hb y hy'; omega
+
+theorem sortBy_filter {α} (key : α → Nat) (p : α → Bool) (l : List α) :
+    (sortBy key l).filter p = sortBy key (l.filter p) := by
+  unfold sortBy
+  suffices ∀ (l acc : List α), acc.Pairwise (fun x y => key x ≤ key y) →
+      (l.foldl (fun acc a => insertBy key a acc) acc).filter p =
+        (l.filter p).foldl (fun acc a => insertBy key a acc) (acc.filter p) by
+    simpa using this l [] List.Pairwise.nil
+  intro l
+  induction l with
+  | nil => intro acc _; rfl
+  | cons a t ih =>
+    intro acc hs
+    simp only [List.foldl_cons]
+    rw [ih _ (insertBy_sorted' key a acc hs), filter_insertBy key p a acc hs, List.filter_cons]
+    cases hpa : p a <;> simp
+
+theorem filterMap_filter_comm {α β} (g : α → Option β) (q : β → Bool) (q' : α → Bool)
+    (h : ∀ e w, g e = some w → q w = q' e) : ∀ (L : List α), (L.filterMap g).filter q = (L.filter q').filterMap g := by
+  intro L
+  induction L with
+  | nil => rfl
+  | cons e t ih =>
+    simp only [List.filterMap_cons, List.filter_cons]
+    cases hg : g e with
+    | none =>
+      simp only
+      cases q' e <;> simp [hg, ih]
+    | some w =>
+      simp only [List.filter_cons, h e w hg]
+      cases q' e <;> simp [hg, ih]
+
+/-- **C09, a form query is a filter**: `words(form, …)` returns exactly those words of the
+unrestricted listing `words(…)` (same id / part-of-speech / lexicon arguments) that have a stored
+form matching one of the searched strings, in the same order — for every database, every list of
+searched strings, with or without normalised matching and `search_all_forms` -/
+theorem C09_words_form_query_is_a_filter (db : Db) (id : Option String) (forms : List String) (pos : Option String)
+    (S : List Nat) (n a : Bool) :
+    findEntries db id forms pos S n a =
+      (findEntries db id [] pos S n a).filter (fun w => forms.isEmpty || formMatch db forms n a w.rowid) := by
+  unfold findEntries
+  dsimp only
+  rw [filterMap_filter_comm _ _ (fun e : REntry => forms.isEmpty || formMatch db forms n a e.rowid)]
+  · rw [sortBy_filter, List.filter_filter]
+    congr 2
+    apply List.filter_congr
+    intro e _
+    simp only [List.isEmpty_nil, Bool.true_or, Bool.and_true]
+    cases (forms.isEmpty || formMatch db forms n a e.rowid) <;> simp
+  · intro e w hg
+    split at hg
+    · simp at hg
+    · simp only [Option.some.injEq] at hg
+      subst hg
+      rfl
+
+
+section EndToEnd
+open WnVerif.Doc
+
+/-- without normalisation and with `search_all_forms`, the form condition of a listed word says: one
+of the forms the word itself reports is among the searched strings -/
+theorem formMatch_of_listed (db : Db) (id : Option String) (forms0 : List String) (pos : Option String) (S : List Nat)
+    (n0 a0 : Bool) (qs : List String) (w : WordData) (hw : w ∈ findEntries db id forms0 pos S n0 a0) :
+    formMatch db qs false true w.rowid = w.forms.any (fun f => qs.contains f.form) := by
+  unfold findEntries at hw
+  dsimp only at hw
+  obtain ⟨e, _, hg⟩ := List.mem_filterMap.mp hw
+  split at hg
+  · simp at hg
+  · simp only [Option.some.injEq] at hg
+    subst hg
+    simp only [List.any_map]
+    rw [(C01.sortBy_perm (fun (x : RForm) => x.rank) _).any_eq]
+    unfold formMatch
+    rw [List.any_filter]
+    congr 1
+    funext f
+    simp [Function.comp]
+
+/-- **C09 + C01, exact look-up end to end**: after a successful `add` of a plain lexicon, an exact
+(non-normalising, all-forms) query for the strings `qs` in the new lexicon returns exactly the
+document's entries that have one of `qs` as lemma or further form — in document order, each reported
+with id, part of speech and forms as `words()` reports them; nothing else, nothing missing -/
+theorem C09_exact_query_end_to_end (norm : String → String) (dr : Nat) (db db' : Db) (l : Lexicon)
+    (h : addLexicon norm dr db l = .ok db') (hext : l.ext = none) (hx : ∀ e ∈ l.entries, e.external = false)
+    (hfkE : ∀ o ∈ db.entries, o.lex ∈ db.lexicons.map (·.rowid))
+    (hfkF : ∀ f ∈ db.forms, f.entry ∈ db.entries.map (·.rowid)) (qs : List String) (hq : qs ≠ []) :
+    (findEntries db' none qs none [nextId (db.lexicons.map (·.rowid))] false true).map C01.obsWord =
+      (l.entries.map C01.docWord).filter (fun o => o.2.2.any (fun f => qs.contains f.1)) := by
+  have hw := C01.C01_words_end_to_end norm dr db db' l h hext hx hfkE hfkF
+  rw [C09_words_form_query_is_a_filter, ← hw, List.filter_map]
+  congr 1
+  apply List.filter_congr
+  intro w hwm
+  have hqe : qs.isEmpty = false := by simpa [List.isEmpty_iff] using hq
+  rw [formMatch_of_listed db' none [] none _ false true qs w hwm]
+  simp [hqe, C01.obsWord, List.any_map]
+  rfl
+
+
+end EndToEnd
 
 end WnVerif.Props.C09
